@@ -33,7 +33,7 @@ func Spec() *evid.Spec {
 		},
 		MinNontrivial: 100,
 		Lanes: []evid.Lane{
-			{Name: "continuation", Children: evid.Const(16, 16), Cases: evid.Const(24, 1600), TimeoutS: evid.Const(900, 7200),
+			{Name: "continuation", Children: evid.Const(16, 16), Cases: evid.Const(24, 500), TimeoutS: evid.Const(900, 7200),
 				Setup: func(ch *evid.Child) { ch.Data = qsim.NewEnv() }, Run: runContinuation},
 			{Name: "sync", Children: evid.Const(4, 8), Cases: evid.Const(12, 60), TimeoutS: evid.Const(600, 3600),
 				Setup: func(ch *evid.Child) { ch.Data = qsim.NewEnv() }, Run: runSync},
